@@ -308,11 +308,22 @@ func c07Hash(gs []c07Gate) uint64 {
 
 const c07FullLimit = 1200
 
-func c07InputSX(k c07Case, full bool) SX {
-	return L(I(k.B), I(k.Tgt), Bool(k.Pre), Ints(k.Opw), Ints(k.Dsw), Ints(k.Prm), Bool(full))
+// circuits up to this many gates are also evaluated by the model on a few operand tuples
+const c07EvalLimit = 25000
+
+func c07InputSX(k c07Case, full bool, tuples [][]*big.Int) SX {
+	ts := make([]SX, len(tuples))
+	for i, t := range tuples {
+		vs := make([]SX, len(t))
+		for j, v := range t {
+			vs[j] = Big(v)
+		}
+		ts[i] = L(vs...)
+	}
+	return L(I(k.B), I(k.Tgt), Bool(k.Pre), Ints(k.Opw), Ints(k.Dsw), Ints(k.Prm), Bool(full), L(ts...))
 }
 
-func c07ObservedSX(gs []c07Gate, d1, d2 []int, wfc, dbu, full bool) SX {
+func c07ObservedSX(gs []c07Gate, d1, d2 []int, wfc, dbu, full bool, outs [][]*big.Int) SX {
 	var gl []SX
 	if full {
 		gl = make([]SX, len(gs))
@@ -320,7 +331,15 @@ func c07ObservedSX(gs []c07Gate, d1, d2 []int, wfc, dbu, full bool) SX {
 			gl[i] = L(I(g.op), I(g.a), I(g.b), I(g.o))
 		}
 	}
-	return L(I(len(gs)), U64(c07Hash(gs)), Bool(wfc), Bool(dbu), Ints(d1), Ints(d2), L(gl...))
+	os := make([]SX, len(outs))
+	for i, o := range outs {
+		v2 := big.NewInt(0)
+		if len(o) > 1 {
+			v2 = o[1]
+		}
+		os[i] = L(Big(o[0]), Big(v2))
+	}
+	return L(I(len(gs)), U64(c07Hash(gs)), Bool(wfc), Bool(dbu), Ints(d1), Ints(d2), L(gl...), L(os...))
 }
 
 // ---- oracle ----
@@ -685,7 +704,6 @@ func c07Run(c *Ctx, r *RNG, k c07Case, exhaustiveBits, nrand int) {
 	}
 	gs, d1, d2, wfc, dbu := c07Canon(bt)
 	full := len(gs) <= c07FullLimit
-	c.Case(c07InputSX(k, full), c07ObservedSX(gs, d1, d2, wfc, dbu, full))
 	c.Hist("builder:" + name)
 	c.Hist("target:" + tgtName)
 	mxw := 0
@@ -702,16 +720,39 @@ func c07Run(c *Ctx, r *RNG, k c07Case, exhaustiveBits, nrand int) {
 	if k.Tgt == 0 && !k.Pre && (k.B == bAdder || k.B == bSub || k.B == bMult || (k.B == bIDiv && k.Dsw[0] > 0 && k.Dsw[1] > 0)) {
 		c07Direct(c, r.Fork(), k)
 	}
+	if k.Tgt == 1 && (k.B == bUDiv || k.B == bIDiv) && len(k.Dsw) == 2 && k.Dsw[0] > 0 && k.Dsw[1] > 0 {
+		// the GMW divider is swept exhaustively up to 8x8 bits in every tier: the
+		// known finding lists the exact failing pairs of these widths
+		exhaustiveBits = 16
+	}
 	circ, cerr := c07Compile(bt)
+	var operands [][]*big.Int
+	var tuples, touts [][]*big.Int
+	var wires []byte
+	if cerr == nil {
+		operands = c07Operands(r, k, exhaustiveBits, nrand)
+		wires = make([]byte, circ.NumWires)
+		// functional part of the correspondence observable: the outputs of the real
+		// compiled circuit on a few operand tuples (the model evaluates its own gate list)
+		if len(gs) <= c07EvalLimit {
+			pick := []int{len(operands) / 3, (2 * len(operands)) / 3, len(operands) - 1}
+			for _, pi := range pick {
+				if pi >= 0 && pi < len(operands) {
+					tuples = append(tuples, operands[pi])
+					touts = append(touts, c07Eval(circ, k.Opw, k.Dsw, operands[pi], wires))
+				}
+			}
+		}
+	}
+	c.Case(c07InputSX(k, full, tuples), c07ObservedSX(gs, d1, d2, wfc, dbu, full, touts))
 	if cerr != nil {
 		c.Fail(fmt.Sprintf("c07:%s:%s:compile-panic", name, tgtName), "Compiler.Compile panics: "+cerr.Error(),
 			c07Replay{Case: k, Note: cerr.Error()})
 		return
 	}
-	wires := make([]byte, circ.NumWires)
 	failed := map[string]bool{}
 	first := true
-	for _, vals := range c07Operands(r, k, exhaustiveBits, nrand) {
+	for _, vals := range operands {
 		want := c07Expected(k, vals)
 		got := c07Eval(circ, k.Opw, k.Dsw, vals, wires)
 		if first {
@@ -729,18 +770,65 @@ func c07Run(c *Ctx, r *RNG, k c07Case, exhaustiveBits, nrand int) {
 			}
 		}
 		nontriv := false
+		// GMW Goldschmidt divider: what the committed algorithm returns for this input
+		var pred []*big.Int
+		gmwDiv := k.Tgt == 1 && (k.B == bUDiv || k.B == bIDiv) && k.Opw[0] == k.Opw[1]
+		if gmwDiv && want[0] != nil || gmwDiv && want[1] != nil {
+			var pq, pr *big.Int
+			if k.B == bUDiv {
+				pq, pr = c07GoldschmidtPredict(k.Opw[0], vals[0], vals[1])
+			} else {
+				pq, pr = c07IDivPredictGMW(k.Opw[0], vals[0], vals[1])
+			}
+			pred = []*big.Int{pq, pr}
+		}
 		for i := range k.Dsw {
 			if i < len(want) && want[i] != nil {
 				nontriv = true
+				ops := make([]string, len(vals))
+				for j, v := range vals {
+					ops[j] = v.String()
+				}
+				if pred != nil && pred[i] != nil {
+					n := k.Opw[0]
+					what := []string{"quotient", "remainder"}[i]
+					pg := c07Mask(pred[i], k.Dsw[i])
+					if pg.Cmp(got[i]) != 0 {
+						// the real circuit no longer computes what the committed algorithm computes
+						c.Fail(fmt.Sprintf("c07:%s:GMW:goldschmidt:w%d:%s/%s:differs-from-committed-algorithm:%s", name, n, ops[0], ops[1], what),
+							fmt.Sprintf("%s (GMW) width %d, a=%s b=%s: %s %s, the committed Goldschmidt algorithm gives %s, exact %s", name, n, ops[0], ops[1], what, got[i], pg, want[i]),
+							c07Replay{Case: k, Dest: i, Operands: ops, Got: got[i].String(), Want: want[i].String(), Note: "committed algorithm: " + pg.String()})
+						continue
+					}
+					if want[i].Cmp(got[i]) != 0 {
+						// known class (F33): exactly the wrong value of the committed algorithm
+						key := fmt.Sprintf("c07:%s:GMW:goldschmidt:w%d:%s/%s:wrong-%s", name, n, ops[0], ops[1], what)
+						if n > 8 {
+							key = fmt.Sprintf("c07:%s:GMW:goldschmidt:w%d:committed-estimate-error:wrong-%s", name, n, what)
+						}
+						if !failed[key] {
+							failed[key] = true
+							c.Fail(key, fmt.Sprintf("%s (GMW) width %d, a=%s b=%s: %s %s, exact %s (as the committed Goldschmidt algorithm computes it)", name, n, ops[0], ops[1], what, got[i], want[i]),
+								c07Replay{Case: k, Dest: i, Operands: ops, Got: got[i].String(), Want: want[i].String()})
+						}
+					}
+					continue
+				}
 				if want[i].Cmp(got[i]) != 0 {
 					cls := c07Class(k, i, vals)
+					if (k.B == bSub || k.B == bKSSub) && cls == "zw>max+1" {
+						// known class (F32): the difference is computed on max+1 bits and zero
+						// extended; any other wrong value is a different defect
+						mx := c07Max(k.Opw[0], k.Opw[1])
+						if c07Mask(new(big.Int).Sub(vals[0], vals[1]), mx+1).Cmp(got[i]) == 0 {
+							cls += ":no-sign-extension"
+						} else {
+							cls += fmt.Sprintf(":%s-%s:unlisted", ops[0], ops[1])
+						}
+					}
 					key := fmt.Sprintf("c07:%s:%s:%s", name, tgtName, cls)
 					if !failed[key] {
 						failed[key] = true
-						ops := make([]string, len(vals))
-						for j, v := range vals {
-							ops[j] = v.String()
-						}
 						c.Fail(key, fmt.Sprintf("%s (%s) widths %v -> %v: result differs from the exact value", name, tgtName, k.Opw, k.Dsw),
 							c07Replay{Case: k, Dest: i, Operands: ops, Got: got[i].String(), Want: want[i].String()})
 					}
@@ -834,7 +922,16 @@ func c07Direct(c *Ctx, r *RNG, k c07Case) {
 		return nil
 	}()
 	if err != nil {
-		c.Fail(fmt.Sprintf("c07:%s:direct-output:%s:compile-panic", name, cls),
+		tag := "panic:" + strings.Map(func(r rune) rune {
+			if r >= 'a' && r <= 'z' || r >= 'A' && r <= 'Z' || r >= '0' && r <= '9' {
+				return r
+			}
+			return '-'
+		}, err.Error())
+		if strings.Contains(err.Error(), "Output already assigned") {
+			tag = "output-already-assigned"
+		}
+		c.Fail(fmt.Sprintf("c07:%s:direct-output:%s:compile-panic:%s", name, cls, tag),
 			fmt.Sprintf("%s with the circuit's output wires as destination (as mpa.Int.bin calls it), widths %v -> %v: %v", name, k.Opw, k.Dsw, err),
 			c07Replay{Case: k, Note: "direct-output style: " + err.Error()})
 		return
